@@ -30,6 +30,12 @@ pub enum Shape {
     FineRev(NodeSet),
     /// subset delivered (coarse) then collapsed by an action publishing one command
     Acted(NodeSet),
+    /// `base` committed; then a sync transaction ingested and FLUSHED `ext \ base` but never
+    /// committed; then something else was committed on the same storage handle.
+    /// how 0: transaction dropped, then a local action; 1: local action while the transaction is
+    /// open, its commit then fails (ConcurrentTransaction); 2: transaction dropped, then one
+    /// further command (not in `ext`) synced and committed from a third peer
+    Abandoned { base: NodeSet, ext: NodeSet, how: u8 },
 }
 
 impl Shape {
@@ -39,6 +45,16 @@ impl Shape {
             Shape::Coarse(s) => format!("{}", s.show()),
             Shape::FineRev(s) => format!("{}rev", s.show()),
             Shape::Acted(s) => format!("{}+action", s.show()),
+            Shape::Abandoned { base, ext, how } => format!(
+                "{}+abandoned{}{}",
+                base.show(),
+                ext.minus(base).show(),
+                match how {
+                    0 => "+action",
+                    1 => "+action(commit fails)",
+                    _ => "+third-peer commit",
+                }
+            ),
         }
     }
     fn size(&self) -> usize {
@@ -46,6 +62,7 @@ impl Shape {
             Shape::Absent => 0,
             Shape::Coarse(s) | Shape::FineRev(s) => s.count(),
             Shape::Acted(s) => s.count() + 1,
+            Shape::Abandoned { base, ext, .. } => base.count() + ext.count() + 1,
         }
     }
 }
@@ -59,6 +76,10 @@ pub struct St {
     pub merges: BTreeSet<CmdId>,
     pub heads: Vec<(CmdId, u64)>,
     pub hello: Option<Address>,
+    /// commands this replica ingested and flushed in a transaction that never committed
+    pub abandoned: BTreeSet<CmdId>,
+    /// only used as the receiving side of a pair
+    pub receiver_only: bool,
 }
 
 /// A causal order of `set` that prefers high node indices (differs from node order whenever
@@ -79,6 +100,7 @@ fn make_state(w: &World, shape: Shape, serial: usize) -> Result<St, String> {
     let mut r = match &shape {
         Shape::Absent => MemReplica::new_mem(w.graph),
         Shape::Coarse(s) | Shape::Acted(s) => build(w, s, Layout::Coarse)?,
+        Shape::Abandoned { base, .. } => build(w, base, Layout::Coarse)?,
         Shape::FineRev(s) => {
             let mut r = MemReplica::new_mem(w.graph);
             for i in rev_order(w, s) {
@@ -97,13 +119,46 @@ fn make_state(w: &World, shape: Shape, serial: usize) -> Result<St, String> {
         };
         r.action(&script).map_err(|e| format!("action: {e}"))?;
     }
+    let mut abandoned = BTreeSet::new();
+    if let Shape::Abandoned { base, ext, how } = &shape {
+        let script = ActionScript {
+            publish: vec![Publish { rank: 0x90, idx: 1000 + serial, name: format!("x{serial}"), finalize: false, prio: 0, prog: vec![Op::Append] }],
+            ..Default::default()
+        };
+        let extra: Vec<rtlib::dag::Cmd> = ext.minus(base).iter().map(|i| w.cmds[i].clone()).collect();
+        abandoned = extra.iter().map(|c| c.id).collect();
+        let mut trx = r.trx();
+        r.add(&mut trx, &extra).map_err(|e| format!("abandoned add: {e}"))?;
+        r.flush(&mut trx).map_err(|e| format!("abandoned flush: {e}"))?;
+        match how {
+            0 => {
+                drop(trx);
+                r.action(&script).map_err(|e| format!("action: {e}"))?;
+            }
+            1 => {
+                r.action(&script).map_err(|e| format!("action: {e}"))?;
+                match r.commit(trx) {
+                    Err(rtlib::rt::ClientError::ConcurrentTransaction) => {}
+                    other => return Err(format!("commit of a transaction overtaken by an action returned {other:?}")),
+                }
+            }
+            _ => {
+                drop(trx);
+                let next = (0..w.n()).find(|&i| !ext.has(i) && w.dag.nodes[i].parents.iter().all(|&p| base.has(p))).ok_or("no third-peer command")?;
+                let mut t2 = r.trx();
+                r.add(&mut t2, std::slice::from_ref(&w.cmds[next])).map_err(|e| format!("third-peer add: {e}"))?;
+                r.commit(t2).map_err(|e| format!("third-peer commit: {e}"))?;
+            }
+        }
+    }
     if shape == Shape::Absent {
-        return Ok(St { shape, r, ids: BTreeSet::new(), merges: BTreeSet::new(), heads: vec![], hello: None });
+        return Ok(St { shape, r, ids: BTreeSet::new(), merges: BTreeSet::new(), heads: vec![], hello: None, abandoned, receiver_only: false });
     }
     let obs = r.observe()?;
     let hello = obs.hello.clone().map_err(|e| format!("hello_head: {e}"))?;
     let merges = obs.cmds.iter().filter(|(_, c)| c.prio.0 == 0).map(|(id, _)| *id).collect();
-    Ok(St { shape, r, ids: obs.cmds.keys().copied().collect(), merges, heads: obs.heads.clone(), hello: Some(addr(hello.0, hello.1)) })
+    let receiver_only = matches!(shape, Shape::Abandoned { .. });
+    Ok(St { shape, r, ids: obs.cmds.keys().copied().collect(), merges, heads: obs.heads.clone(), hello: Some(addr(hello.0, hello.1)), abandoned, receiver_only })
 }
 
 fn opts(tier: Tier) -> UniverseOpts {
@@ -137,6 +192,27 @@ pub fn run_world(w: &World, acc: &mut Acc, states_seen: &mut HashSet<u64>) {
             shapes.push(Shape::FineRev(s.clone()));
         }
         shapes.push(Shape::Acted(s.clone()));
+    }
+    // histories with an abandoned (flushed, never committed) sync transaction followed by
+    // another commit: every base, extended by one more command or to the whole universe
+    let full = w.full();
+    for base in &subsets {
+        for ext in &subsets {
+            if ext == base || !base.subset_of(ext) {
+                continue;
+            }
+            let by_one = ext.count() == base.count() + 1;
+            if !(by_one || *ext == full) {
+                continue;
+            }
+            shapes.push(Shape::Abandoned { base: base.clone(), ext: ext.clone(), how: 0 });
+            if *ext == full {
+                shapes.push(Shape::Abandoned { base: base.clone(), ext: ext.clone(), how: 1 });
+            }
+            if by_one && (0..w.n()).any(|i| !ext.has(i) && w.dag.nodes[i].parents.iter().all(|&p| base.has(p))) {
+                shapes.push(Shape::Abandoned { base: base.clone(), ext: ext.clone(), how: 2 });
+            }
+        }
     }
     let mut sts: Vec<St> = Vec::with_capacity(shapes.len());
     for (k, sh) in shapes.into_iter().enumerate() {
@@ -193,7 +269,19 @@ pub fn run_world(w: &World, acc: &mut Acc, states_seen: &mut HashSet<u64>) {
 
     // clauses 1 and 3 over all ordered pairs
     let n = sts.len();
+    acc.count("states_with_an_abandoned_transaction", sts.iter().filter(|s| !s.abandoned.is_empty()).count() as u64);
+    for s in sts.iter_mut().filter(|s| !s.abandoned.is_empty()) {
+        // informational: what the public lookup says about the abandoned commands
+        for id in s.abandoned.clone() {
+            let Some(&i) = w.idx_of.get(&id) else { continue };
+            let present = s.r.client.command_exists(w.graph, addr(id, w.max_cuts[i]), &mut s.r.buffers.traversal.primary);
+            acc.outcome(if present { "abandoned-command:command_exists=true" } else { "abandoned-command:command_exists=false" }, 1);
+        }
+    }
     for bi in 0..n {
+        if sts[bi].receiver_only {
+            continue;
+        }
         let Some(head) = sts[bi].hello else { continue };
         for ai in 0..n {
             // honest advert, then the same id with a max cut that is off by one (a notification
@@ -219,6 +307,9 @@ pub fn run_world(w: &World, acc: &mut Acc, states_seen: &mut HashSet<u64>) {
                 };
                 acc.count("transitions", 1);
                 acc.count("executions", 1);
+                if kind == "hello" && sts[ai].abandoned.contains(&adv.id) {
+                    acc.count("adverts_naming_a_command_the_receiver_abandoned", 1);
+                }
                 let (a, b) = (&sts[ai], &sts[bi]);
                 match decision {
                     Err(e) => {
@@ -330,6 +421,7 @@ pub fn run(args: &Args) {
         rep.require_nonzero("no_sync_decisions_multi_head");
         rep.require_nonzero("same_multi_head_set_comparisons");
         rep.require_nonzero("collapsed_states");
+        rep.require_nonzero("adverts_naming_a_command_the_receiver_abandoned");
     }
     rep.finish()
 }
